@@ -285,13 +285,28 @@ theorem sign_generator_any_arrival_order_partial [Fact r.Prime]
   have hge := groupSecret_eval dealers gsk hg
   have htarget : ops.mul hm gsk = (groupPoly r dealers).eval 0 • hm := by rw [hops.mul_eq, hge]
   rw [htarget] at hval ⊢
-  obtain ⟨st, hf, hinv, hall⟩ := feed_inv ops hops isValid (groupPoly r dealers) k hk0
-    (degree_groupPoly_lt dealers k (fun cs h => (hk cs h).2))
-    (fun x => (memberKey r dealers x).getD 0)
-    (fun x => by
-      obtain ⟨v, hv⟩ := memberKey_isSome (r := r) dealers x hne (fun cs h => (hk cs h).1)
-      simp only [hv, Option.getD_some]
-      exact memberKey_eval dealers x v hv) hm hval arr (SignGen.new k)
+  have hdeg := degree_groupPoly_lt (r := r) dealers k (fun cs h => (hk cs h).2)
+  have hs : ∀ x, (((memberKey r dealers x).getD 0 : Nat) : ZMod r) = (groupPoly r dealers).eval (x : ZMod r) := by
+    intro x
+    obtain ⟨v, hv⟩ := memberKey_isSome (r := r) dealers x hne (fun cs h => (hk cs h).1)
+    simp only [hv, Option.getD_some]
+    exact memberKey_eval dealers x v hv
+  obtain ⟨st, hf, hinv, hall⟩ := feed_inv ops r isValid k hk0
+    (fun x => ops.mul hm ((memberKey r dealers x).getD 0)) ((groupPoly r dealers).eval 0 • hm)
+    (by
+      intro ids hlen hids
+      have hne' : ids ≠ [] := by intro h0; subst h0; simp at hlen; omega
+      have := recoverWith_poly ops hops ids hne' hids (groupPoly r dealers) (by simpa [hlen] using hdeg)
+        (ids.map (fun x => (memberKey r dealers x).getD 0)) (by simp) (by
+          intro t ht
+          rw [List.getD, List.getElem?_map, List.getElem?_eq_getElem ht]
+          simp only [Option.map_some, Option.getD_some]
+          rw [hs]
+          unfold pt
+          simp [List.getD, List.getElem?_eq_getElem ht]) hm
+      rw [List.map_map] at this
+      exact this)
+    hval arr (SignGen.new k)
     ⟨rfl, Or.inr ⟨rfl, by simpa [SignGen.new] using hk0, by simp [SignGen.new], by simp [SignGen.new]⟩⟩
     hhon (by simpa [SignGen.new] using hmod)
   refine ⟨st, hf, ?_⟩
